@@ -4,6 +4,7 @@ import (
 	"bytes"
 	"context"
 	"fmt"
+	"strings"
 	"time"
 
 	"github.com/synnaxlabs/cesium"
@@ -75,8 +76,13 @@ func ReadChannel(ctx context.Context, db *cesium.DB, spec tsm.ChannelSpec, a, b 
 	}
 	var fr cesium.Frame
 	if it.SeekFirst() {
+		steps := 0
 		for it.Next(telem.TimeSpanMax) {
 			fr = fr.Extend(it.Value())
+			if steps++; steps > 10000 {
+				_ = it.Close()
+				return nil, fmt.Errorf("iterator did not terminate: Next(TimeSpanMax) returned true %d times", steps)
+			}
 		}
 	}
 	if ierr := it.Error(); ierr != nil {
@@ -117,8 +123,13 @@ func ReadChannelWatchdog(ctx context.Context, db *cesium.DB, spec tsm.ChannelSpe
 	go func() {
 		var fr cesium.Frame
 		if it.SeekFirst() {
+			steps := 0
 			for it.Next(telem.TimeSpanMax) {
 				fr = fr.Extend(it.Value())
+				if steps++; steps > 10000 {
+					done <- result{fr, fmt.Errorf("iterator did not terminate: Next(TimeSpanMax) returned true %d times", steps)}
+					return
+				}
 			}
 		}
 		done <- result{fr, it.Error()}
@@ -215,13 +226,40 @@ func CheckRead(ctx context.Context, db *cesium.DB, m *tsm.Model, key uint32, a, 
 	_, want := c.Read(a, b)
 	got, err := ReadChannel(ctx, db, c.Spec, a, b)
 	if err != nil {
-		return kit.Fail("read-error", "%s: Read(ch%d, [%d,%d)) failed: %v", where, key, a, b, err)
+		sig := "read-error"
+		// A data channel whose domain starts where its index has no coverage any more:
+		// the signature names this situation so that the listed known finding (an index
+		// delete snaps the kept part forward to the next sample, past the start of a data
+		// domain) stays separate from every other read failure.
+		if !c.Spec.IsIndex && strings.Contains(err.Error(), "is not continuous in the index") && dataDomainOutsideIndex(m, c) {
+			sig = "read-error:data-domain-start-outside-index-coverage"
+		}
+		return kit.Fail(sig, "%s: Read(ch%d, [%d,%d)) failed: %v", where, key, a, b, err)
 	}
 	if !sameSamples(got, want) {
 		return kit.Fail("read-mismatch", "%s: Read(ch%d %s, [%d,%d)) returned %s, model expects %s (timestamps %v)",
 			where, key, c.Spec.DataType, a, b, short(got), short(want), firstN(c, a, b))
 	}
 	return nil
+}
+
+// dataDomainOutsideIndex reports whether the data channel still covers a point that lies
+// in a snap gap of its index: the index channel was deleted up to b, the engine snapped
+// the kept index part forward to the next sample s > b, and a domain of the data channel
+// starts inside [b,s).
+func dataDomainOutsideIndex(m *tsm.Model, c *tsm.Chan) bool {
+	idx := m.Chans[c.Spec.Index]
+	if idx == nil {
+		return false
+	}
+	for _, g := range idx.SnapGaps {
+		for _, iv := range c.Cover {
+			if iv.S < g.E && g.S < iv.E {
+				return true
+			}
+		}
+	}
+	return false
 }
 
 func firstN(c *tsm.Chan, a, b int64) []int64 {
